@@ -276,6 +276,9 @@ harness! {
     }
 }
 
+// (a fully concrete three-entry merge -- centroid 5, backlog 6, 1 -- was tried as harness and exhausted 20 GB in CBMC after 5 min:
+// sort_by + drain/chain/collect on a Vec of pairs; merges of three or more entries stay undecided, DESIGN.md section 13)
+
 // public wrapper on an empty digest: NaN / 0 for every q and x (complete, loop-free)
 harness! {
     fn c15_td_empty_wrapper() {
